@@ -1251,15 +1251,14 @@ func c13JSON(p *core.Program, r *core.Report, typesPkg *ssa.Package) {
 			continue
 		}
 		inLoop := false
-		for _, cs := range core.Calls(m, false) {
-			if cf := cs.Common().StaticCallee(); cf != nil && cf.Name() == "ToXJSON" {
-				for _, pr := range cs.Instr.Block().Preds {
-					_ = pr
-				}
+		// the conversion may be written in the loop or in a helper of the package the loop calls
+		for _, ec := range core.EffectiveCalls(m, 1) {
+			if cf := ec.Inner.Common().StaticCallee(); cf != nil && cf.Name() == "ToXJSON" {
+				at := ec.Outer.Block()
 				// in a loop: some block it can reach dominates it
 				for _, b := range m.Blocks {
 					for _, sc := range b.Succs {
-						if sc.Dominates(b) && sc.Dominates(cs.Instr.Block()) {
+						if sc.Dominates(b) && sc.Dominates(at) {
 							inLoop = true
 						}
 					}
